@@ -15,6 +15,7 @@ import IocProofs.Lemmas.SemRefresh
 import IocProofs.Lemmas.Order
 import IocProofs.Lemmas.SemOrder
 import IocProofs.Lemmas.SemSmall
+import IocProofs.Lemmas.SemApp
 namespace Ioc.C10
 open Ioc Ioc.Tag Ioc.Match
 
@@ -303,5 +304,14 @@ theorem C10_code_GetAllProperties (gs : List (String × List Nat)) :
   getAllProperties_sem gs
 
 end readers
+
+/-- the runners are invoked in the order `SortOrderedComponents` returns — callRunners (regenerated, `C13_code_callRunners`)
+    walks the SORTED arrangement, not the order in which the registry enumerated the runners into the App's slice -/
+theorem C10_code_callRunners_uses_sorted (rs : List App.Runner) (sorted : List Nat) :
+    Go.run (Sem.crPrims rs sorted) Progs.app_callRunners [] {} =
+      if rs.length = 0 then some (.nil, {})
+      else some (if (Sem.callIdx rs sorted).2 then .nil else Sem.errA,
+                 { invoked := (Sem.callIdx rs sorted).1, cleared := (Sem.callIdx rs sorted).2 }) :=
+  Sem.app_callRunners_sem rs sorted
 
 end Ioc.C10
